@@ -29,7 +29,12 @@ template<> struct tn<double> { static const char* n() { return "f64"; } };
 template<> struct tn<int32_t> { static const char* n() { return "i32"; } };
 template<> struct tn<int64_t> { static const char* n() { return "i64"; } };
 template<> struct tn<bool> { static const char* n() { return "bool"; } };
+template<> struct tn<short> { static const char* n() { return "i16"; } };
+template<> struct tn<unsigned> { static const char* n() { return "u32"; } };
+template<> struct tn<long double> { static const char* n() { return "f80"; } };
+template<> inline uint64_t bits_of<long double>(long double x) { double d = (double)x; if (d == 0.) d = 0.; uint64_t u; std::memcpy(&u, &d, 8); return u; }
 
+static unsigned g_seed = 0;
 static inline int small(unsigned x, int m = 9) { x = x * 2654435761u + 12345u; return (int)((x >> 16) % m) - m / 2; }
 template<typename TensorT> static inline void fill(TensorT& A, unsigned seed, int m = 9) {
     using T = typename TensorT::scalar_type;
@@ -52,10 +57,10 @@ template<typename T> static inline void emit_approx(const std::string& id, const
     std::printf("\n");
 }
 template<typename T, bool F = std::is_floating_point<T>::value> struct S { static std::string id(const char* op, std::initializer_list<long> ps) {
-    std::string s = std::string(op) + "/" + tn<T>::n(); for (long p : ps) s += "/" + std::to_string(p); return s; } };
+    std::string s = std::string(op) + "/" + tn<T>::n(); for (long p : ps) s += "/" + std::to_string(p); s += "/s" + std::to_string(g_seed); return s; } };
 
 // ---------------------------------------------------------------------------------------------- matmul
-template<typename T, size_t M, size_t K, size_t N> void c_mm(unsigned seed) {
+template<typename T, size_t M, size_t K, size_t N> void c_mm(unsigned seed) { g_seed = seed;
     Tensor<T,M,K> A; Tensor<T,K,N> B; fill(A, seed); fill(B, seed + 7);
     T ref[M*N];
     for (size_t i=0;i<M;++i) for (size_t j=0;j<N;++j) { T s = 0; for (size_t k=0;k<K;++k) s += A(i,k)*B(k,j); ref[i*N+j] = s; }
@@ -65,7 +70,7 @@ template<typename T, size_t M, size_t K, size_t N> void c_mm(unsigned seed) {
     D -= A % B;
     emit_exact(S<T>::id("mmlazy-=", {(long)M,(long)K,(long)N}), D.data(), ref2, M*N);
 }
-template<typename T, size_t M, size_t K, size_t N, typename L, typename R> void c_tmm(unsigned seed, const char* tag) {
+template<typename T, size_t M, size_t K, size_t N, typename L, typename R> void c_tmm(unsigned seed, const char* tag) { g_seed = seed;
     Tensor<T,M,K> A; Tensor<T,K,N> B; fill(A, seed); fill(B, seed + 7);
     for (size_t i=0;i<M;++i) for (size_t k=0;k<K;++k) {
         if (std::is_same<L,UpLoType::Lower>::value && k > i) A(i,k) = 0;
@@ -79,7 +84,7 @@ template<typename T, size_t M, size_t K, size_t N, typename L, typename R> void 
     emit_exact(S<T>::id((std::string("tmm-") + tag).c_str(), {(long)M,(long)K,(long)N}), C.data(), ref, M*N);
 }
 // ---------------------------------------------------------------------------------------------- element-wise expressions
-template<typename T, size_t N> void c_ew(unsigned seed) {
+template<typename T, size_t N> void c_ew(unsigned seed) { g_seed = seed;
     Tensor<T,N> A, B, C; fill(A, seed); fillpos(B, seed + 5); fill(C, seed + 9);
     T a[N], b[N], c[N]; for (size_t i=0;i<N;++i) { a[i]=A.data()[i]; b[i]=B.data()[i]; c[i]=C.data()[i]; }
     Tensor<T,N> R1 = A + B*A - 3;                 T r1[N]; for (size_t i=0;i<N;++i) r1[i] = a[i] + b[i]*a[i] - 3;
@@ -97,7 +102,7 @@ template<typename T, size_t N> void c_ew(unsigned seed) {
     Tensor<T,N> R7 = abs(A) + abs(C - B);         T r7[N]; for (size_t i=0;i<N;++i) r7[i] = (T)std::abs((double)a[i]) + (T)std::abs((double)(c[i]-b[i]));
     emit_exact(S<T>::id("ew7abs", {(long)N}), R7.data(), r7, N);
 }
-template<typename T, size_t N> void c_ewf(unsigned seed) {   // floating point only: sqrt is correctly rounded everywhere; scalar division may use a reciprocal
+template<typename T, size_t N> void c_ewf(unsigned seed) { g_seed = seed;   // floating point only: sqrt is correctly rounded everywhere; scalar division may use a reciprocal
     Tensor<T,N> A, B; fillpos(A, seed, 40); fillpos(B, seed + 5);
     Tensor<T,N> R1 = sqrt(A) * B + sqrt(B);       // inexact intermediates: a*b+c may or may not be contracted to an FMA
     emit_approx(S<T>::id("ewsqrt", {(long)N}), R1.data(), N, 60.0);
@@ -106,7 +111,7 @@ template<typename T, size_t N> void c_ewf(unsigned seed) {   // floating point o
     Tensor<T,N> R2 = A / T(3);
     emit_approx(S<T>::id("ewdivscalar", {(long)N}), R2.data(), N, 40.0);
 }
-template<typename T, size_t M, size_t N> void c_cmp(unsigned seed) {
+template<typename T, size_t M, size_t N> void c_cmp(unsigned seed) { g_seed = seed;
     Tensor<T,M,N> A, B; fill(A, seed, 5); fill(B, seed + 3, 5);
     Tensor<bool,M,N> L = A < B; Tensor<bool,M,N> E = A == B; Tensor<bool,M,N> G = (A >= B) && (A != 0);
     bool rl[M*N], re[M*N], rg[M*N];
@@ -119,7 +124,7 @@ template<typename T, size_t M, size_t N> void c_cmp(unsigned seed) {
     emit_exact(S<T>::id("preds", {(long)M,(long)N}), p, pr, 4);
 }
 // ---------------------------------------------------------------------------------------------- reductions
-template<typename T, size_t N> void c_red(unsigned seed) {
+template<typename T, size_t N> void c_red(unsigned seed) { g_seed = seed;
     Tensor<T,N> A; fill(A, seed, 13);
     T s = 0, mn = A.data()[0], mx = A.data()[0]; for (size_t i=0;i<N;++i) { T x = A.data()[i]; s += x; if (x<mn) mn=x; if (x>mx) mx=x; }
     T got[5] = { sum(A), min(A), max(A), sum(A + A), inner(A, A) };
@@ -135,7 +140,7 @@ template<typename T, size_t N> void c_red(unsigned seed) {
     T got3[1] = { product(P) }; T ref3[1] = { pr };
     emit_exact(S<T>::id("prod", {(long)N}), got3, ref3, 1);
 }
-template<typename T, size_t N> void c_redf(unsigned seed) {
+template<typename T, size_t N> void c_redf(unsigned seed) { g_seed = seed;
     Tensor<T,N> A; fill(A, seed, 13);
     T got[1] = { norm(A) };
     emit_approx(S<T>::id("norm", {(long)N}), got, 1, 7.0 * std::sqrt((double)N));
@@ -145,7 +150,7 @@ template<typename T, size_t N> void c_redf(unsigned seed) {
 }
 // ---------------------------------------------------------------------------------------------- einsum
 enum { I_=0, J_, K_, L_, M_ };
-template<typename T, size_t A0, size_t A1, size_t A2> void c_es(unsigned seed) {
+template<typename T, size_t A0, size_t A1, size_t A2> void c_es(unsigned seed) { g_seed = seed;
     { Tensor<T,A0,A1> A; Tensor<T,A1,A2> B; fill(A, seed); fill(B, seed+1);
       auto C = einsum<Index<I_,J_>,Index<J_,K_>>(A,B); T ref[A0*A2];
       for (size_t i=0;i<A0;++i) for (size_t k=0;k<A2;++k) { T s=0; for (size_t j=0;j<A1;++j) s += A(i,j)*B(j,k); ref[i*A2+k]=s; }
@@ -169,7 +174,7 @@ template<typename T, size_t A0, size_t A1, size_t A2> void c_es(unsigned seed) {
       emit_exact(S<T>::id("es3-ij,jk,kl", {(long)A0,(long)A1,(long)A2}), C.data(), ref, A0*A0); }
 }
 // ---------------------------------------------------------------------------------------------- permute / transpose
-template<typename T, size_t A0, size_t A1, size_t A2> void c_perm(unsigned seed) {
+template<typename T, size_t A0, size_t A1, size_t A2> void c_perm(unsigned seed) { g_seed = seed;
     Tensor<T,A0,A1,A2> A; fill(A, seed, 100);
     { auto P = permute<Index<2,0,1>>(A); T ref[A0*A1*A2];   // out(i,j,k)[p-permuted]
       Tensor<T,A0,A1,A2> Bk = permute<Index<1,2,0>>(P);      // inverse permutation: round trip
@@ -185,7 +190,7 @@ template<typename T, size_t A0, size_t A1, size_t A2> void c_perm(unsigned seed)
       emit_exact(S<T>::id("translazy", {(long)(A0*A1),(long)A2}), Tl.data(), ref, A0*A1*A2); }
 }
 // ---------------------------------------------------------------------------------------------- views
-template<typename T, size_t M, size_t N> void c_views(unsigned seed) {
+template<typename T, size_t M, size_t N> void c_views(unsigned seed) { g_seed = seed;
     Tensor<T,M,N> A; fill(A, seed, 50);
     { Tensor<T,(M+1)/2,N-1> B = A(seq(0,last,2), seq(1,last)); T ref[((M+1)/2)*(N-1)];
       for (size_t i=0;i<(M+1)/2;++i) for (size_t j=0;j<N-1;++j) ref[i*(N-1)+j] = A(2*i, j+1);
@@ -207,7 +212,7 @@ template<typename T, size_t M, size_t N> void c_views(unsigned seed) {
 template<typename T, size_t N> static inline Tensor<T,N,N> ddom(unsigned seed) {
     Tensor<T,N,N> A; fill(A, seed, 7); for (size_t i=0;i<N;++i) A(i,i) = (T)(4*N + (i%3)); return A;
 }
-template<typename T, size_t N> void c_linalg(unsigned seed) {
+template<typename T, size_t N> void c_linalg(unsigned seed) { g_seed = seed;
     Tensor<T,N,N> A = ddom<T,N>(seed); Tensor<T,N> b; fill(b, seed+1);
     const double sc = 1.0;
     { Tensor<T,N,N> X = inverse(A); Tensor<T,N,N> R = matmul(A, X); emit_approx(S<T>::id("inv-resid", {(long)N}), R.data(), N*N, sc); }
@@ -221,7 +226,7 @@ template<typename T, size_t N> void c_linalg(unsigned seed) {
     { T d[1] = { determinant(A) }; double s = 1; for (size_t i=0;i<N;++i) s *= (double)A(i,i); emit_approx(S<T>::id("det", {(long)N}), d, 1, s); }
 }
 // ---------------------------------------------------------------------------------------------- layout, cast, reshape
-template<typename T, size_t A0, size_t A1, size_t A2> void c_misc(unsigned seed) {
+template<typename T, size_t A0, size_t A1, size_t A2> void c_misc(unsigned seed) { g_seed = seed;
     Tensor<T,A0,A1,A2> A; fill(A, seed, 100);
     { auto C = tocolumnmajor(A); auto Rm = torowmajor(C);
       T ref[A0*A1*A2]; for (size_t i=0;i<A0;++i) for (size_t j=0;j<A1;++j) for (size_t k=0;k<A2;++k) ref[i + A0*(j + A1*k)] = A(i,j,k);
@@ -236,4 +241,19 @@ template<typename T, size_t A0, size_t A1, size_t A2> void c_misc(unsigned seed)
       T ref[A0*A1*A2+3]; for (size_t i=0;i<A0*A1*A2+3;++i) ref[i] = (T)small(seed + (unsigned)i, 50);
       for (size_t i=0;i<A0*A1*A2;++i) ref[1+i] *= 2; for (size_t i=0;i<A0*A1;i+=2) for (size_t j=0;j<A2;++j) ref[1+i*A2+j] += 1;
       emit_exact(S<T>::id("map-unaligned", {(long)A0,(long)A1,(long)A2}), buf, ref, A0*A1*A2+3); }
+}
+
+// ---------------------------------------------------------------------------------------------- element types the library does not vectorise
+template<typename T, size_t M, size_t K, size_t N> void c_nonprim1(unsigned seed) {
+    Tensor<T,M,K> A; Tensor<T,K,N> B; fillpos(A, seed, 4); fillpos(B, seed + 7, 4);
+    T ref[M*N];
+    for (size_t i=0;i<M;++i) for (size_t j=0;j<N;++j) { T s = 0; for (size_t k=0;k<K;++k) s += A(i,k)*B(k,j); ref[i*N+j] = s; }
+    Tensor<T,M,N> C = matmul(A,B);
+    emit_exact(S<T>::id("mm", {(long)M,(long)K,(long)N}), C.data(), ref, M*N);
+    Tensor<T,M,N> D = A % B; Tensor<T,M,K> E = A + A * A - A; T re[M*K]; for (size_t i=0;i<M*K;++i) re[i] = A.data()[i] + A.data()[i]*A.data()[i] - A.data()[i];
+    emit_exact(S<T>::id("mmlazy", {(long)M,(long)K,(long)N}), D.data(), ref, M*N);
+    emit_exact(S<T>::id("ew", {(long)M,(long)K}), E.data(), re, M*K);
+}
+template<size_t M, size_t K, size_t N> void c_nonprim(unsigned seed) { g_seed = seed;
+    c_nonprim1<short,M,K,N>(seed); c_nonprim1<unsigned,M,K,N>(seed + 1); c_nonprim1<long double,M,K,N>(seed + 2);
 }
